@@ -305,12 +305,22 @@ def build_case(rng, spec, is_fgg, ids):
         else:
             d = fggs.RangeDomain(size); info["domains"].append("range")
         g.add_domain(b.nls[i], d)
+    unused = set(unused_labels(spec))
     for el, e in enumerate(spec["elabels"]):
         if not e["term"]: continue
+        if el in unused:
+            # a terminal that occurs in no rule: binding a factor to it triggers F20 (KeyError); leaving
+            # it unbound shows the silent form (the label disappears)
+            if rng.random() < 0.5: continue
+            info["factor_on_unused"] = True
         doms = [g.domains[b.nls[nl].name] for nl in e["type"]]
         shape = [spec["nlabels"][nl] for nl in e["type"]]
         c = rng.random()
-        if c < 0.08:
+        if 0 in shape:
+            # an empty domain: the (empty) weights as a dense tensor of the right shape
+            fac = fggs.FiniteFactor(doms, torch.zeros(shape, dtype=torch.get_default_dtype())); info["weights"].append("empty")
+            if any(n == 0 for n in shape[:-1]): info["zero_dim_then_more"] = True
+        elif c < 0.08:
             fac = fggs.ConstantFactor(doms, rng.choice([1.5, 2, math.inf, 0.0])); info["weights"].append("constant")
         elif c < 0.45:
             vals = gen.nested(shape, lambda: rng.choices(GRID, GRID_P)[0])
@@ -645,6 +655,9 @@ def run(tier, seed):
         is_fgg = rng.random() < 0.6
         spec = gen.random_spec(rng, recursive=rng.random() < 0.5, max_dom=rng.choice([3, 4, 6]), p_feature=0.2)
         if rng.random() < (0.9 if is_fgg else 0.5): spec = prune_spec(spec)
+        if is_fgg and rng.random() < 0.05:
+            spec["nlabels"][rng.randrange(len(spec["nlabels"]))] = 0      # an empty domain
+            spec["features"] = sorted(set(spec["features"]) | {"empty_domain"})
         ids = rng.choice(["explicit", "explicit", "implicit", "mixed", "mixed"])
         try:
             g, info = build_case(rng, spec, is_fgg, ids)
@@ -663,7 +676,8 @@ def run(tier, seed):
         unused = unused_labels(spec)
         meta = dict(spec=gen.spec_jsonable(spec), ids=ids, is_fgg=is_fgg, json=j, info=dict(info, kinds=sorted(info["kinds"])),
                     unused_labels=[gen.el_name(spec, u) for u in unused],
-                    factor_on_unused_terminal=bool(is_fgg and any(spec["elabels"][u]["term"] for u in unused)))
+                    factor_on_unused_terminal=bool(info.get("factor_on_unused")),
+                    zero_dim_then_more=bool(info.get("zero_dim_then_more")))
         metas.append(meta); lives.append((g, extra))
         bump("ids", ids); bump("kind", "fgg" if is_fgg else "hrg")
         bump("start_arity", len(spec["elabels"][spec["start"]]["type"]))
@@ -677,24 +691,41 @@ def run(tier, seed):
     pool = ThreadPoolExecutor(4)
     fut_g = pool.submit(run_model_c14, FGGCHK, vals, 12 if quick else 60, seed, "c14fgg")
     # ---------------- sum_product before / after
+    # The round-tripped grammar has dense weights.  It is compared with the original grammar whose
+    # weights were densified in place (same denotation, checked exactly in the grammar stream): equal
+    # factors must give the same sum-product.  sum_product of the original *patterned* weights is also
+    # computed; where it differs from the densified one the defect is in the patterned einsum/unify
+    # (properties C06/C07: e.g. SumAxis(0, e, 0) does not unify with e), not in the serialisation; it is
+    # counted in the evidence (sum_product_pattern_sensitive) and printed as a NOTE.
     n_sp = 40 if quick else 400
-    sp_done = 0
+    sp_done = 0; sp_sensitive = []
+    def sp(gg):
+        z = fggs.sum_product(gg, method="fixed-point", semiring=fggs.RealSemiring())
+        return z.to_dense() if hasattr(z, "to_dense") else z
     for i in range(n_sp):
         spec = prune_spec(gen.random_spec(rng, recursive=False, max_dom=rng.choice([2, 3, 4]), allow_inf=False))
         try:
             g, info = build_case(rng, spec, True, rng.choice(["explicit", "implicit", "mixed"]))
             if any(isinstance(f, fggs.ConstantFactor) for f in g.factors.values()): continue
             g2 = fggs.json_to_fgg(json.loads(json.dumps(fggs.fgg_to_json(g))))
-            z1 = fggs.sum_product(g, method="fixed-point", semiring=fggs.RealSemiring())
-            z2 = fggs.sum_product(g2, method="fixed-point", semiring=fggs.RealSemiring())
+            g3 = g.copy()
+            for f in g3.factors.values():
+                f.weights = f.weights.to_dense().clone()
+            z3 = sp(g3); z2 = sp(g2)
         except Exception as e:
             violations.append(Violation("sum_product before/after round trip raised %r" % (e,), case=gen.spec_jsonable(spec),
                                         corr="corr:sum_product-after-roundtrip", failing_input_found=False)); continue
         sp_done += 1
-        a, b2 = z1.to_dense() if hasattr(z1, "to_dense") else z1, z2.to_dense() if hasattr(z2, "to_dense") else z2
-        if not dense_equal(a, b2, 1e-9):
+        if not dense_equal(z3, z2, 1e-9):
             violations.append(Violation("sum_product differs after the JSON round trip", case=gen.spec_jsonable(spec),
-                                        observed=b2.tolist(), expected=a.tolist(), corr="C14 (same sum-product)", call="sum_product(json_to_fgg(fgg_to_json(g)))"))
+                                        observed=z2.tolist(), expected=z3.tolist(), corr="C14 (same sum-product)", call="sum_product(json_to_fgg(fgg_to_json(g)))"))
+        try:
+            z1 = sp(g)
+            if not dense_equal(z1, z3, 1e-9): sp_sensitive.append(dict(spec=gen.spec_jsonable(spec), patterned=z1.tolist(), densified=z3.tolist()))
+        except Exception as e:
+            sp_sensitive.append(dict(spec=gen.spec_jsonable(spec), patterned="raised %s" % type(e).__name__, densified=z3.tolist()))
+    if sp_sensitive:
+        print("NOTE property=C14 sum_product of %d grammar(s) with patterned weights differs from the same grammar with densified weights (patterned einsum/unify, see C06/C07); the JSON round trip itself agrees with the densified value" % len(sp_sensitive))
 
     lap('sumprod')
     # ---------------- weights stream
@@ -798,6 +829,8 @@ def run(tier, seed):
         key = None
         if c == 4 and m["factor_on_unused_terminal"] and v[3][0] == "ObsFromErr" and v[3][1][1] == "KeyErr":
             key = "factor_bound_to_terminal_label_used_in_no_rule"
+        if c == 4 and m["zero_dim_then_more"] and v[3][0] == "ObsFromErr" and v[3][1][1] == "ValueErr":
+            key = "finite_factor_with_empty_domain_followed_by_another_dimension"
         if c == 5 and m["is_fgg"] and m["unused_labels"]:
             key = "fgg_edge_label_used_in_no_rule_dropped_by_from_hrg"
         violations.append(Violation(FGG_CODES.get(c, "verdict %d" % c), case=dict(m, verdict=c), observed=v[3][0],
@@ -846,10 +879,12 @@ def run(tier, seed):
                distinct_nontrivial=distinct_g + distinct_w + distinct_p,
                rule="grammar stream: gen.random_spec grammars (pruned of unused labels with prob. 0.9 for FGGs / 0.5 for HRGs) built with explicit/implicit/mixed ids, finite(str/int)/range domains, constant/dense/patterned factors; non-trivial = >= 2 rules, distinct by the JSON written. weights stream: random patterned specifications; non-trivial = uses a sum, product, shared or expand axis, distinct by JSON. PatternedTensor stream: non-trivial = some non-dense axis kind. Malformed and sum-product cases are counted in evaluations only.",
                samples=samples, histograms=hist, kernel_reevaluated=nk + nk2 + nk3 + nk4,
-               second_roundtrip_byte_compared=byte_checked, sum_product_compared=sp_done,
+               second_roundtrip_byte_compared=byte_checked, sum_product_compared=sp_done, sum_product_pattern_sensitive=len(sp_sensitive),
+               sum_product_pattern_sensitive_sample=sp_sensitive[:1],
                streams=dict(grammar=len(vals), weights=len(wvals), patterned_tensors=len(pvals), malformed=len(mvals), sum_product=sp_done),
                known_finding_predicates=["patterned_weights_spec_without_vaxes", "factor_bound_to_terminal_label_used_in_no_rule",
-                                         "fgg_edge_label_used_in_no_rule_dropped_by_from_hrg", "negative_node_number_within_minus_n_wraps_around"],
+                                         "fgg_edge_label_used_in_no_rule_dropped_by_from_hrg", "negative_node_number_within_minus_n_wraps_around",
+                                         "finite_factor_with_empty_domain_followed_by_another_dimension"],
                open_items=OPEN_ITEMS)
     return cov, violations
 
